@@ -383,7 +383,13 @@ impl<'a, A: AcceptableMasterList, C: Clock, F: Filter, R: Rng, S: PtpInstanceSta
 
     /// Handle the announce receipt timer going off
     pub fn handle_announce_receipt_timer(&mut self) -> PortActionIterator<'_> {
-        if self
+        if matches!(self.port_state, PortState::Faulty) {
+            // A faulty port takes no part in the protocol, so it must not become
+            // master. Keep the timer running so that the port resumes normal
+            // operation once it has recovered.
+            let duration = self.config.announce_duration(&mut self.rng);
+            actions![PortAction::ResetAnnounceReceiptTimer { duration }]
+        } else if self
             .instance_state
             .with_ref(|state| state.default_ds.slave_only)
         {
